@@ -22,7 +22,8 @@ K_PROFILE = "rf4ce-profile-vendor-unauthenticated"
 
 EXN = {"MissingKeyError": "MissingKeyError", "BadMICError": "BadMICError", "AttributeError": "AttributeError",
        "error": "StructError", "ValueError": "ValueError", "IndexError": "IndexError",
-       "MissingEncryptedKeystrokePayload": "MissingPayload"}
+       "MissingEncryptedKeystrokePayload": "MissingPayload", "MissingRF4CESecurityFlag": "MissingSecurityFlag",
+       "MissingRF4CEHeader": "MissingHeader"}
 
 
 def rb(rng, n):
@@ -150,6 +151,11 @@ def gen_lw(ctx):
     for _ in range(200 if ctx.thorough else 16):
         cases.append(lw_data_case(rng, rng.choice([2, 3, 4, 5]), rng.choice([0, rng.randrange(256)]), rng.randrange(16),
                                   rng.randrange(0, 223 - 15), keys()))
+    # downlink frames with every FOpts length 1..15 (FOpts direction), ports 0 and > 0
+    for mt in (3, 5):
+        for nfo in range(1, 16):
+            for rep in range(3 if ctx.thorough else 1):
+                cases.append(lw_data_case(rng, mt, rng.choice([0, rng.randrange(1, 256)]), nfo, rng.choice([0, 1, 5, 17]), keys()))
     # PHY length beyond the 'B' length field of B0 (struct.error, outside the property's 0..222)
     cases.append(lw_data_case(rng, 2, 1, 15, 240, keys()))
     # join accepts: 12-byte body, with CFList (28), non-zero RFU/Major, misaligned bodies
@@ -246,8 +252,17 @@ def gen_rf(ctx):
             c = rf_case(rng, mode, rng.choice([1, 2, 3]), 1, rng.choice([1, 9, 20]), explicit=True, expect="wrong")
             c[what] = rb(rng, 16 if what == "deckey" else 8).hex()
             cases.append(c)
-    # decrypting a frame whose security flag is clear
-    cases.append(rf_case(rng, "nwk", 1, 0, 4, op="dec", expect="dec-sec0"))
+    # decrypting a frame whose security flag is clear: MissingRF4CESecurityFlag in every mode,
+    # also when the addresses are missing as well
+    for mode in ("nwk", "mac", "fcs"):
+        for ft in (1, 2):
+            cases.append(rf_case(rng, mode, ft, 0, rng.choice([0, 4]), op="dec", expect="dec-sec0"))
+    cases.append(rf_case(rng, "nwk", 3, 0, 4, op="dec", explicit=False, expect="dec-sec0"))
+    # decrypting without usable addresses
+    cases.append(rf_case(rng, "nwk", 1, 1, 4, op="dec", explicit=False, mic="01020304", expect="dec-noaddr"))
+    cases.append(rf_case(rng, "mac", 2, 1, 4, op="dec", long=False, mic="01020304", expect="dec-noaddr"))
+    # packet without RF4CE layer
+    cases.append({"mode": "nohdr", "key": rb(rng, 16).hex(), "fctl": 0x2c, "payload": "", "expect": "nohdr"})
     # sweeps
     sw = [("nwk", 1, 3), ("mac", 2, 2), ("fcs", 3, 1)]
     if ctx.thorough:
@@ -259,11 +274,12 @@ def gen_rf(ctx):
 
 def gen_un(ctx):
     rng, cases = ctx.rng, []
-    ctrs = [0, 1, 0xffffffff, 0x01020304]
+    ctrs = [0, 1, 0xffffffff, 0x01020304, 0x80000000, 0x7fffffff, 0xfffffffe, 0x80000001, 0xdeadbeef, 0xc0000000]
     for i in range(400 if ctx.thorough else 40):
         c = {"dev": rng.choice([0, 3, rng.randrange(256)]), "ft": 0xD3,
              "hid": rng.choice([bytes(7), bytes([rng.choice([0, 2]), rng.randrange(4, 60), 0, 0, 0, 0, 0]), rb(rng, 7)]).hex(),
-             "unk": rng.choice([0xC9, 0, rng.randrange(256)]), "ctr": ctrs[i] if i < len(ctrs) else rng.getrandbits(32),
+             "unk": rng.choice([0xC9, 0, rng.randrange(256)]),
+             "ctr": ctrs[i] if i < len(ctrs) else (rng.getrandbits(32) | (0x80000000 if i % 2 else 0)),
              "unused": rng.choice([bytes(7), bytes(7), rb(rng, 7)]).hex(), "key": rb(rng, 16).hex(),
              "cks": rng.choice([None, None, rng.randrange(256)])}
         cases.append(c)
@@ -358,11 +374,30 @@ def oracle_rf(ctx, c, r, st):
         return
     exp = c.get("expect")
     enc, dec = r.get("enc"), r.get("dec")
+    if exp == "nohdr":
+        st["missing"] += 1
+        for nm, o in (("encrypt", enc), ("decrypt", dec)):
+            if (o or {}).get("exc") != "MissingRF4CEHeader":
+                ctx.violation("RF4CE %s of a packet without RF4CE layer did not raise MissingRF4CEHeader" % nm, case,
+                              expected="MissingRF4CEHeader", observed=o)
+        return
     if exp == "dec-sec0":
-        return   # class compared by the correspondence (struct.error; see design/C18.md)
+        st["missing"] += 1
+        if (dec or {}).get("exc") != "MissingRF4CESecurityFlag":
+            ctx.violation("RF4CE decrypt of a frame whose security flag is clear did not raise MissingRF4CESecurityFlag", case,
+                          expected="MissingRF4CESecurityFlag", observed=dec)
+        return
+    if exp == "dec-noaddr":
+        st["missing"] += 1
+        if not (dec and "tuple" in dec and dec["tuple"][1] is False):
+            ctx.violation("RF4CE decrypt without usable addresses did something else than (packet, False)", case,
+                          expected="(packet, False)", observed=dec)
+        return
     if exp == "noaddr":
-        if not ("tuple" in enc and enc["tuple"][1] is False) and enc.get("exc") != "AttributeError":
-            ctx.violation("encrypt without usable addresses did something else than (packet, False)", case, observed=enc)
+        st["missing"] += 1
+        if not ("tuple" in enc and enc["tuple"][1] is False):
+            ctx.violation("RF4CE encrypt without usable addresses did something else than (packet, False)", case,
+                          expected="(packet, False)", observed=enc)
         return
     if "pkt" not in enc:
         ctx.violation("RF4CE encrypt did not return a packet", case, observed=enc)
@@ -509,8 +544,13 @@ def run(ctx):
             t_sw.append("(%s, %s, %s, %s)" % (leg, c_keys(dk), cbytes(bytes.fromhex(oe["ok"])), clist([str(x) for x in r["sweep"]])))
             i_sw.append(i)
     t_rf, i_rf, t_rs, i_rs, t_rd, i_rd = [], [], [], [], [], []
+    t_nh, i_nh = [], []
     for i, (c, r) in enumerate(zip(rf, res["rf"])):
         if "build_exc" in r:
+            continue
+        if c["mode"] == "nohdr":
+            t_nh.append("(%s, %s, %s, %s)" % (leg, cbytes(bytes.fromhex(c["key"])), rf_strip(c, r["enc"]), rf_strip(c, r["dec"])))
+            i_nh.append(i)
             continue
         m = rf_model_in(c, r)
         if c.get("op") == "dec":
@@ -547,6 +587,7 @@ def run(ctx):
         ("rf", "bool * bytes * bytes * rf_in * option bytes * option bytes * rf_out * rf_out", t_rf, "check_rf", i_rf, rf, res["rf"], 12),
         ("rfsweep", "bool * bytes * nat * option bytes * option bytes * bool * bytes * list N", t_rs, "check_rf_sweep", i_rs, rf, res["rf"], 1),
         ("rfdec", "bool * bytes * rf_in * rf_out", t_rd, "check_rf_dec", i_rd, rf, res["rf"], 10),
+        ("rfnohdr", "bool * bytes * rf_out * rf_out", t_nh, "check_rf_nohdr", i_nh, rf, res["rf"], 10),
         ("un", "bool * bytes * bytes * un_frame * outcome bytes * outcome bytes * outcome bytes", t_un, "check_un", i_un, un, res["un"], 30),
     ]
     corr, first_bad, logs_all = {}, None, []
@@ -586,7 +627,7 @@ def run(ctx):
                            "lw_downlink": sum(1 for c in data if c["mtype"] in (3, 5)), "lw_missing_key": st["missing"],
                            "lw_struct_error": sum(1 for c in data if 9 + len(c["fopts"]) // 2 + len(c["payload"]) // 2 > 255),
                            "lw_ecb_misaligned": sum(1 for c in lw if c["kind"] == "join" and (len(c["body"]) // 2 + 4) % 16),
-                           "rf_noaddr": sum(1 for c in rf if c.get("expect") == "noaddr"), "rf_struct_error": len(t_rd),
+                           "rf_noaddr": sum(1 for c in rf if c.get("expect") in ("noaddr", "dec-noaddr")), "rf_security_flag_clear_on_decrypt": sum(1 for c in rf if c.get("expect") == "dec-sec0"), "rf_no_header": len(t_nh),
                            "un_missing_payload": sum(1 for c in un if c["ft"] != 0xD3)},
         "uncovered_branches": ["un_crypt: IndexError (hid_data shorter than 7 bytes: scapy returns the raw short value)",
                                "rf_parse / dissect: None (frames shorter than their headers are outside the model)"],
@@ -613,7 +654,7 @@ def replay(payload):
     print(json.dumps(case)[:3000])
     if not case:
         return 0
-    proto = case.get("proto") or {"lw": "lw", "lwsweep": "lw", "rf": "rf", "rfsweep": "rf", "rfdec": "rf", "un": "un"}.get(case.get("group"))
+    proto = case.get("proto") or {"lw": "lw", "lwsweep": "lw", "rf": "rf", "rfsweep": "rf", "rfdec": "rf", "rfnohdr": "rf", "un": "un"}.get(case.get("group"))
     c = case.get("case")
     if proto in ("lw", "rf", "un") and c:
         r = C.run_impl("C18.py", {proto: [c]})
